@@ -104,7 +104,7 @@ def plan(tier):
     cov_c = ["contains-true-00", "contains-true-01", "contains-true-10", "contains-true-11", "contains-false"]
     return [
         Scenario("point", scen_point, cover=["point-in", "point-out"],
-                 bounds={"parameters": "unbounded reals", "corner orderings": 4, "access paths": 3}),
+                 nra_mode="oneshot", bounds={"parameters": "unbounded reals", "corner orderings": 4, "access paths": 3}),
         Scenario("contains", scen_contains, cover=cov_c,
-                 bounds={"parameters": "unbounded reals", "type pairs": 4, "corner orderings": "4 (joint)"}),
+                 nra_mode="oneshot", bounds={"parameters": "unbounded reals", "type pairs": 4, "corner orderings": "4 (joint)"}),
     ]
